@@ -146,6 +146,30 @@ fn casings(name: &str) -> Vec<String> {
     v
 }
 
+/// How the bytes reach the reader. What fits the first read (1 KiB) always arrives together - the head has to, by ohkami's
+/// documented design. What follows arrives the way a socket delivers it: in one piece, or in several pieces of any size with
+/// or without a pause between them. The cut points are a function of the bytes, so a replay delivers the same way.
+pub fn delivery(bytes: &[u8]) -> Vec<Seg> {
+    const FIRST: usize = 1024;
+    if bytes.len() <= FIRST { return vec![Seg::Data(bytes.to_vec())] }
+    let mut h: u64 = 0xcbf29ce484222325;
+    for b in bytes.iter().take(64).chain(bytes.iter().rev().take(16)) { h = (h ^ *b as u64).wrapping_mul(0x100000001b3) }
+    h ^= bytes.len() as u64;
+    let mut next = || { h ^= h << 13; h ^= h >> 7; h ^= h << 17; h };
+    if next() % 3 == 0 { return vec![Seg::Data(bytes.to_vec())] }
+    let mut v = vec![Seg::Data(bytes[..FIRST].to_vec())];
+    let mut at = FIRST;
+    while at < bytes.len() {
+        let left = bytes.len() - at;
+        let n = [1usize, 2, 17, 300, 1024, 1500, 4096, left][(next() % 8) as usize].min(left);
+        if next() % 3 == 0 { v.push(Seg::Pending) }
+        v.push(Seg::Data(bytes[at..at + n].to_vec()));
+        at += n;
+        if v.len() > 64 { v.push(Seg::Data(bytes[at..].to_vec())); break }
+    }
+    v
+}
+
 pub fn check(rep: &mut Report, case: u64, router: &hook::Router, bytes: &[u8], mutation: Option<&str>, features: &str) {
     rep.eval();
     let reference = parse_request(bytes);
@@ -156,7 +180,7 @@ pub fn check(rep: &mut Report, case: u64, router: &hook::Router, bytes: &[u8], m
         Err(_) => vec!["host".into(), "Content-Length".into(), "X-Bin".into(), "X-Nul".into()],
     };
     let mut snap: Option<Snapshot> = None;
-    let s = web::session(router, vec![Seg::Data(bytes.to_vec())], End::Hang, 1, |req| snap = Some(snapshot(req, &ask)));
+    let s = web::session(router, delivery(bytes), End::Hang, 1, |req| snap = Some(snapshot(req, &ask)));
     let step = s.steps.first().cloned().unwrap_or(Step::Closed);
     let class = match (&mutation, in_subset) {
         (None, true) => "valid".to_string(),
@@ -170,6 +194,7 @@ pub fn check(rep: &mut Report, case: u64, router: &hook::Router, bytes: &[u8], m
     }
     rep.distinct(&format!("{features}|{}", mutation.unwrap_or("-")));
     rep.count(&format!("outcome:{}", step.kind()));
+    if bytes.len() > 1024 { rep.count(if delivery(bytes).len() > 2 { "delivery:rest-in-several-pieces" } else { "delivery:rest-in-one-piece" }) }
     let cj = |extra: serde_json::Value| json!({"case_index": case, "class": class, "input_hex": crate::rng::hex(&bytes[..bytes.len().min(4000)]), "input": crate::rng::show(bytes), "outcome": step.kind(), "detail": extra});
     if class == "generator-outside-subset" {
         rep.violation("C02/harness:generator-outside-subset", &format!("generator produced a request the reference refuses: {:?}", reference.as_ref().err()), cj(json!(null)));
@@ -227,7 +252,8 @@ pub fn check(rep: &mut Report, case: u64, router: &hook::Router, bytes: &[u8], m
                     let sn = snap.as_ref().unwrap();
                     let mut diffs: Vec<(String, String)> = vec![];
                     if sn.method != r.method { diffs.push(("method".into(), format!("{} vs {}", sn.method, r.method))) }
-                    let exp_path = { let p = r.path.strip_suffix('/').unwrap_or(&r.path); if p.is_empty() { "/".to_string() } else { p.to_string() } };
+                    // ohkami normalises one trailing '/' away; that is a *separator* on the wire - an escaped slash (%2F) at the end is data and stays
+                    let exp_path = { let p = if r.raw_path.ends_with(b"/") { r.path.strip_suffix('/').unwrap_or(&r.path) } else { &r.path[..] }; if p.is_empty() { "/".to_string() } else { p.to_string() } };
                     if sn.path_str.as_ref().ok() != Some(&exp_path) { diffs.push(("path".into(), format!("path.str() = {:?}, expected {:?}", sn.path_str, exp_path))) }
                     if let Some(q) = r.query_pairs() {
                         if sn.query.as_ref().ok() != Some(&q) { diffs.push(("query".into(), format!("query.iter() = {:?}, expected {:?}", sn.query, q))) }
